@@ -13,6 +13,7 @@ OUTPUT side: the tree types the output variable of a decision (`Out<k>`, literal
 import json
 
 import gitemdef as g
+import xmlvar
 import runner
 from common import chunks, crash_signature, panic_signature, rng_for
 
@@ -283,6 +284,7 @@ def run(rep, tier, seed):
     cases = []
     meta = []
     n_values = 0
+    vrng = rng_for(seed, "c11-xml-spelling")
     for ti in picked:
         tree = trees[ti]
         vals = g.values_for(tree)
@@ -292,6 +294,9 @@ def run(rep, tier, seed):
             rep.bump("values_by_kind:" + kind)
             rep.bump("values_by_position:%s:%s" % (g.node_kind(at, False), kind))
         cases.append(_input_case(tree, vals))
+        if len(cases) % 4 < 2:
+            cases[-1]["xml"] = xmlvar.vary(cases[-1]["xml"], vrng)[0]  # the same model in another XML spelling (lib/xmlvar.py)
+            rep.bump("input_models_in_a_varied_xml_spelling")
         meta.append(("input", ti, vals))
         for part in chunks(vals, CHUNK):
             cases.append(_output_case(tree, part))
